@@ -22,6 +22,10 @@ structure AStream where
   mask : MId
   queue : List Entry
   live : Bool
+  /-- the server-side subscription is known to exist: a seeded stream proves it with its seed, an
+  updates_only stream with its first message (the Pull RPC returns before the handler subscribes, so
+  until then an Update may be missed) -/
+  established : Bool
 
 structure Acc where
   cur : Option VId
@@ -58,17 +62,36 @@ def skipOptional (w : VId) : List Entry → List Entry
   | [] => []
   | e :: rest => if !e.must && e.val ≠ w then skipOptional w rest else e :: rest
 
+/-- an Update response reaches a stream's expectation queue: `w` its projected value, `wp` the previous one -/
+def qPush (q : List Entry) (w wp : VId) (established : Bool) : List Entry :=
+  q ++ [{ val := w, must := w ≠ wp && established, seed := false }]
+
+/-- a message `w` arrives on a stream with expectation queue `q` -/
+def qRecv (q : List Entry) (w : VId) (nameOk : Bool) : List Entry × Verdict :=
+  match skipOptional w q with
+  | [] => ([], .reject "Pull/unexpected-stream-message")
+  | e :: rest =>
+    if e.val ≠ w then (rest, .reject (if e.seed then "Pull/seed-wrong" else "Pull/wrong-stream-value"))
+    else if !nameOk then (rest, .reject "Pull/wrong-name")
+    else (rest, .ok)
+
+/-- the reader found the stream idle: nothing that MUST arrive may be outstanding -/
+def qIdle (q : List Entry) : Verdict :=
+  match q.find? (·.must) with
+  | none => .ok
+  | some e => .reject (if e.seed then "Pull/seed-missing" else "Pull/update-missing-on-stream")
+
 def pushEntry (a : Acc) (prev : Option VId) (v : VId) (s : AStream) : Option AStream :=
   if !s.live then some s else
   match a.proj s.mask v with
   | none => none
   | some w =>
     match prev with
-    | none => some { s with queue := s.queue ++ [{ val := w, must := true, seed := false }] }
+    | none => some { s with queue := s.queue ++ [{ val := w, must := s.established, seed := false }] }
     | some p =>
       match a.proj s.mask p with
       | none => none
-      | some wp => some { s with queue := s.queue ++ [{ val := w, must := w ≠ wp, seed := false }] }
+      | some wp => some { s with queue := qPush s.queue w wp s.established }
 
 def accept (a : Acc) : Obs → Acc × Verdict
   | .fact m v p => ({ a with facts := ((m, v), p) :: a.facts }, .ok)
@@ -91,27 +114,21 @@ def accept (a : Acc) : Obs → Acc × Verdict
     | some c, false =>
       match a.proj m c with
       | none => (a, .missingFact)
-      | some p => ({ a with streams := a.streams ++ [{ mask := m, queue := [{ val := p, must := true, seed := true }], live := true }] }, .ok)
-    | _, _ => ({ a with streams := a.streams ++ [{ mask := m, queue := [], live := true }] }, .ok)
+      | some p => ({ a with streams := a.streams ++ [{ mask := m, queue := [{ val := p, must := true, seed := true }], live := true, established := true }] }, .ok)
+    | _, _ => ({ a with streams := a.streams ++ [{ mask := m, queue := [], live := true, established := false }] }, .ok)
   | .recv i w nameOk =>
     match a.streams[i]? with
     | none => (a, .reject "Pull/unexpected-stream-message")
     | some s =>
-      match skipOptional w s.queue with
-      | [] => ({ a with streams := setAt a.streams i fun s => { s with queue := [] } }, .reject "Pull/unexpected-stream-message")
-      | e :: rest =>
-        let a' := { a with streams := setAt a.streams i fun s => { s with queue := rest } }
-        if e.val ≠ w then (a', .reject (if e.seed then "Pull/seed-wrong" else "Pull/wrong-stream-value"))
-        else if !nameOk then (a', .reject "Pull/wrong-name")
-        else (a', .ok)
+      let r := qRecv s.queue w nameOk
+      ({ a with streams := setAt a.streams i fun s => { s with queue := r.1, established := s.established || r.2 == .ok } }, r.2)
   | .idle i =>
     match a.streams[i]? with
     | none => (a, .ok)
     | some s =>
-      match s.queue.find? (·.must) with
-      | none => (a, .ok)
-      | some e => ({ a with streams := setAt a.streams i fun s => { s with queue := [] } },
-          .reject (if e.seed then "Pull/seed-missing" else "Pull/update-missing-on-stream"))
+      match qIdle s.queue with
+      | .ok => (a, .ok)
+      | v => ({ a with streams := setAt a.streams i fun s => { s with queue := [] } }, v)
   | .close i => ({ a with streams := setAt a.streams i fun s => { s with live := false, queue := [] } }, .ok)
   | .bad cls => (a, .reject cls)
 
